@@ -299,7 +299,7 @@ func BuildLockWorld(p *Prog, scope func(*ssa.Function) bool, ignoreCaller func(*
 	w := &LockWorld{P: p, Funcs: map[*ssa.Function]*FuncLocks{}, Must: map[*ssa.Function]LockSet{}, May: map[*ssa.Function]LockSet{},
 		Edges: map[*ssa.Function][]CallEdge{}, CallersOf: map[*ssa.Function][]CallEdge{}, Roots: map[*ssa.Function]string{}}
 	var fns []*ssa.Function
-	for _, fn := range p.ModFns {
+	for _, fn := range append(append([]*ssa.Function{}, p.ModFns...), p.Wrappers()...) {
 		if fn.Blocks != nil && scope(fn) {
 			fns = append(fns, fn)
 			w.Funcs[fn] = AnalyzeLocks(fn)
